@@ -12,6 +12,7 @@ From SU.Proofs Require Import GlideCoeffProofs GlideFilterProofs.
 From SU.Spec Require Import RunSpec.
 From SU.Proofs Require Import GlideExtraProofs.
 From SU.Proofs Require Import GlideKillers.
+From SU.Proofs Require Import GlideTraceProofs.
 Open Scope R_scope.
 
 (** for every sample rate in [100 Hz, 48 kHz] and every schedule of set_time calls with
@@ -157,6 +158,79 @@ Theorem C13_outputs_defined_iff_after : forall ops g,
      length ys = length (filter (fun o => match o with GProcess _ => true | _ => false end) ops)).
 Proof. exact outputs_defined_iff_after. Qed.
 
+(** the hypotheses of the approach / settle theorems hold in every reachable state: for every history with times in [0,10] and inputs in [lo,hi], the coefficients in force are good, at least as fast as 0.6/fs, and the filter state is bounded by (1 + resolution) M *)
+Theorem C13_reachable_bounded : forall fs ops lo hi g,
+  glide_fs_ok fs -> Forall op_time_ok ops -> Forall (op_input_in lo hi) ops ->
+  lo <= 0 <= hi ->
+  (Rmax (- lo) hi = 0 \/ bpow radix2 (-100) <= Rmax (- lo) hi) ->
+  Rmax (- lo) hi <= bpow radix2 64 ->
+  glide_run (glide_new fs) ops = Some g ->
+  good (d_c (g_lpf g)) /\ 0.6 / R32 fs <= speed (d_c (g_lpf g)) /\
+  hull_inv lo hi (resolution (0.6 / R32 fs) * Rmax (- lo) hi) (g_lpf g) /\
+  df1_bounded (g_lpf g) ((1 + resolution (0.6 / R32 fs)) * Rmax (- lo) hi).
+Proof. exact reachable_bounded. Qed.
+
+(** the constant-input clause on real histories: after ANY history (set_time calls in the middle of a glide included), while an input is held the outputs contract toward it with the pole in force, from the first output of the stretch on (sharp constant 7.5*2^-24) *)
+Theorem C13_trace_approach : forall (fs : f32) (g0 : glide) (rlo rhi B : R), glide_fs_ok fs -> glide_new fs = Some g0 -> rlo <= 0 <= rhi -> (Rmax (- rlo) rhi = 0 \/ bpow radix2 (-100) <= Rmax (- rlo) rhi) -> (1 + resolution (0.6 / R32 fs)) * Rmax (- rlo) rhi <= B -> bpow radix2 (-100) <= B -> B <= bpow radix2 64 ->
+  forall ops x k,
+  Forall op_time_ok ops -> Forall (op_input_in rlo rhi) ops -> fin x -> rlo <= R32 x <= rhi ->
+  exists g ys zs,
+    glide_after g0 ops = Some g /\ glide_outputs g0 ops = Some ys /\
+    glide_outputs g0 (ops ++ repeat (GProcess x) (S (S k))) = Some (ys ++ zs) /\
+    length zs = S (S k) /\
+    forall j, (j <= k)%nat ->
+      Rabs ((R32 (nth (S j) zs f_0) - R32 x) - pole (d_c (g_lpf g)) * (R32 (nth j zs f_0) - R32 x))
+        <= 15 / 2 * u24 * B.
+Proof. exact C13_trace_approach. Qed.
+
+(** the same with further set_time calls inside the held stretch *)
+Theorem C13_trace_approach_gen : forall (fs : f32) (g0 : glide) (rlo rhi B : R), glide_fs_ok fs -> glide_new fs = Some g0 -> rlo <= 0 <= rhi -> (Rmax (- rlo) rhi = 0 \/ bpow radix2 (-100) <= Rmax (- rlo) rhi) -> (1 + resolution (0.6 / R32 fs)) * Rmax (- rlo) rhi <= B -> bpow radix2 (-100) <= B -> B <= bpow radix2 64 ->
+  forall ops x ts,
+  Forall op_time_ok ops -> Forall (op_input_in rlo rhi) ops -> fin x -> rlo <= R32 x <= rhi ->
+  Forall glide_time_ok ts ->
+  exists g ys y1 y2,
+    glide_after g0 (ops ++ GProcess x :: map GSetTime ts) = Some g /\
+    glide_outputs g0 ops = Some ys /\
+    glide_outputs g0 (ops ++ GProcess x :: map GSetTime ts ++ [GProcess x]) = Some (ys ++ [y1; y2]) /\
+    fin y2 /\
+    Rabs ((R32 y2 - R32 x) - pole (d_c (g_lpf g)) * (R32 y1 - R32 x)) <= 15 / 2 * u24 * B.
+Proof. exact C13_trace_approach_gen. Qed.
+
+(** and settle on it up to the resolution of the coefficients IN FORCE (not the slowest ever used), half of it for non-negative poles *)
+Theorem C13_trace_settles : forall (fs : f32) (g0 : glide) (rlo rhi B : R), glide_fs_ok fs -> glide_new fs = Some g0 -> rlo <= 0 <= rhi -> (Rmax (- rlo) rhi = 0 \/ bpow radix2 (-100) <= Rmax (- rlo) rhi) -> (1 + resolution (0.6 / R32 fs)) * Rmax (- rlo) rhi <= B -> bpow radix2 (-100) <= B -> B <= bpow radix2 64 ->
+  forall ops x n,
+  Forall op_time_ok ops -> Forall (op_input_in rlo rhi) ops -> fin x -> rlo <= R32 x <= rhi ->
+  exists g ys zs,
+    glide_after g0 ops = Some g /\ glide_outputs g0 ops = Some ys /\
+    glide_outputs g0 (ops ++ repeat (GProcess x) (S n)) = Some (ys ++ zs) /\
+    length zs = S n /\
+    let c := d_c (g_lpf g) in
+    let p := Rmax 0 (pole c) in
+    let y1 := hd f_0 zs in
+    let y := last zs f_0 in
+    Rabs (R32 y - R32 x) <= p ^ n * Rabs (R32 y1 - R32 x) + resolution (speed c) * B /\
+    (0 <= pole c ->
+     Rabs (R32 y - R32 x) <= p ^ n * Rabs (R32 y1 - R32 x) + resolution (speed c) / 2 * B).
+Proof. exact C13_trace_settles. Qed.
+
+(** the same from the last set_time call of the stretch on *)
+Theorem C13_trace_settles_gen : forall (fs : f32) (g0 : glide) (rlo rhi B : R), glide_fs_ok fs -> glide_new fs = Some g0 -> rlo <= 0 <= rhi -> (Rmax (- rlo) rhi = 0 \/ bpow radix2 (-100) <= Rmax (- rlo) rhi) -> (1 + resolution (0.6 / R32 fs)) * Rmax (- rlo) rhi <= B -> bpow radix2 (-100) <= B -> B <= bpow radix2 64 ->
+  forall ops x ts n,
+  Forall op_time_ok ops -> Forall (op_input_in rlo rhi) ops -> fin x -> rlo <= R32 x <= rhi ->
+  Forall glide_time_ok ts ->
+  exists g ys y1 zs,
+    glide_after g0 (ops ++ GProcess x :: map GSetTime ts) = Some g /\
+    glide_outputs g0 ops = Some ys /\
+    glide_outputs g0 (ops ++ GProcess x :: map GSetTime ts ++ repeat (GProcess x) n)
+      = Some (ys ++ y1 :: zs) /\
+    length zs = n /\
+    let c := d_c (g_lpf g) in
+    let p := Rmax 0 (pole c) in
+    Rabs (R32 (last zs y1) - R32 x) <= p ^ n * Rabs (R32 y1 - R32 x) + resolution (speed c) * B /\
+    (0 <= pole c ->
+     Rabs (R32 (last zs y1) - R32 x) <= p ^ n * Rabs (R32 y1 - R32 x) + resolution (speed c) / 2 * B).
+Proof. exact C13_trace_settles_gen. Qed.
+
 Print Assumptions C13_coeffs_good.
 Print Assumptions C13_one_step.
 Print Assumptions C13_hull.
@@ -170,3 +244,8 @@ Print Assumptions C13_hull_constant_needed.
 Print Assumptions C13_after_outputs_process.
 Print Assumptions C13_after_outputs_set_time.
 Print Assumptions C13_outputs_defined_iff_after.
+Print Assumptions C13_reachable_bounded.
+Print Assumptions C13_trace_approach.
+Print Assumptions C13_trace_approach_gen.
+Print Assumptions C13_trace_settles.
+Print Assumptions C13_trace_settles_gen.
